@@ -91,6 +91,10 @@ def programs():
     # a function is a hashable value: it may be a dictionary key or a set element
     add("dict-keyed-by-function", "def a():\n    pass\nTABLE = {a: \"one\"}\n" + T + "    print(TABLE[a])\n",
         [("value-under-function-key", "referenced", {"BUILD.dawn": "def a():\n    pass\nTABLE = {a: \"two\"}\n" + T + "    print(TABLE[a])\n"})])
+    # values of different kinds that are written alike when enumerated
+    add("range-against-list", "V = range(3)\n" + T + "    print(V)\n", [("kind", "referenced", {"BUILD.dawn": "V = [0, 1, 2]\n" + T + "    print(V)\n"})])
+    add("tuple-against-list", "V = (0, 1, 2)\n" + T + "    print(V)\n", [("kind", "referenced", {"BUILD.dawn": "V = [0, 1, 2]\n" + T + "    print(V)\n"})])
+    add("string-iterators", "V = \"abc\".codepoints()\nW = \"abc\".elems()\n" + T + "    print(list(V), list(W))\n")
     add("unassigned-free-variable", "def outer():\n    def inner():\n        return y\n    if False:\n        y = 1\n    return inner\nG = outer()\n" + T + "    print(G)\n")
     add("self-containing-list", "X = [1]\nX.append(X)\n" + T + "    print(len(X))\n",
         [("element", "referenced", {"BUILD.dawn": "X = [2]\nX.append(X)\n" + T + "    print(len(X))\n"})])
